@@ -137,6 +137,12 @@ var varGoExpr = map[string]func(...goexpr.Expr) goexpr.Expr{
 	"DECODE":    goexpr.Decode,
 }
 
+// varGoExprMinParams lists the variadic functions that can't be called without
+// parameters.
+var varGoExprMinParams = map[string]int{
+	"CONCAT": 1, // the delimiter
+}
+
 func RegisterUnaryDIMFunction(name string, fn func(goexpr.Expr) goexpr.Expr) error {
 	name = strings.ToUpper(name)
 	_, found := unaryGoExpr[name]
@@ -1276,6 +1282,9 @@ func goFnExprFor(e *sqlparser.FuncExpr, fname string) (goexpr.Expr, error) {
 	}
 	vfn, found := varGoExpr[fname]
 	if found {
+		if numParams < varGoExprMinParams[fname] {
+			return nil, fmt.Errorf("Function %v requires at least %d parameter(s), not %d", fname, varGoExprMinParams[fname], numParams)
+		}
 		params := make([]goexpr.Expr, 0, numParams)
 		for i := 0; i < numParams; i++ {
 			param, err := paramGoExpr(e, i)
